@@ -90,6 +90,31 @@ def idxStep (global : Bool) (nb : List (List Nat)) (k nup : Nat) (π : List Nat)
     | .error e => .error e
     | .ok flat => overwriteLoop k nup flat fv c0 nup 0 idx1
 
+/-- variant of the second loop that keeps the chosen partners in a vector of their own
+    (`partners[j] = ind1Neighbors[r]`, the repair proposed for F-SPE-LOCAL): `indices` is only shuffled -/
+def partnersLoop (k : Nat) (flat : List Nat) (fv : Nat → Int) (c0 : Nat) : (todo j : Nat) → Except Err (List Nat)
+  | 0, _ => .ok []
+  | todo + 1, j =>
+    let r : Int := fv (c0 + j) + ((k * j : Nat) : Int)
+    if r < 0 then .error .oob else
+      match flat[r.toNat]? with
+      | none => .error .oob
+      | some v =>
+        match partnersLoop k flat fv c0 todo (j + 1) with
+        | .error e => .error e
+        | .ok rest => .ok (v :: rest)
+
+/-- `(*ind1, *ind2)` for `j < nup` when `ind2` walks over the separate `partners` vector -/
+def pairsSep (idx partners : List Nat) : (todo j : Nat) → Except Err (List (Nat × Nat))
+  | 0, _ => .ok []
+  | todo + 1, j =>
+    match idx[j]?, partners[j]? with
+    | some a, some b =>
+      match pairsSep idx partners todo (j + 1) with
+      | .error e => .error e
+      | .ok rest => .ok ((a, b) :: rest)
+    | _, _ => .error .oob
+
 /-- number of `uniform_random()` calls per iteration -/
 def drawsPerIter (global : Bool) (nup : Nat) : Nat := if global then 0 else nup
 
@@ -117,6 +142,40 @@ def pairsOf (nup : Nat) (idx : List Nat) : (todo j : Nat) → Except Err (List (
       | .error e => .error e
       | .ok rest => .ok ((a, b) :: rest)
     | _, _ => .error .oob
+
+/-- One iteration of the index bookkeeping for either shape of the local strategy, returning the new index vector
+    and the pairs to update.  `inPlace = true`: the code as written at the pinned commit (partners overwrite
+    `indices[nup .. 2nup)`); `inPlace = false`: partners in a separate vector.  Which one the working tree has is
+    regenerated into `Gen/SpeVariant.lean` on every check. -/
+def stepPairs (inPlace global : Bool) (nb : List (List Nat)) (k nup : Nat) (π : List Nat) (fv : Nat → Int) (c0 : Nat)
+    (idx : List Nat) : Except Err (List Nat × List (Nat × Nat)) :=
+  if inPlace || global then
+    match idxStep global nb k nup π fv c0 idx with
+    | .error e => .error e
+    | .ok idx' =>
+      match pairsOf nup idx' nup 0 with
+      | .error e => .error e
+      | .ok ps => .ok (idx', ps)
+  else
+    let idx1 := applyShuffle π idx
+    match gatherNeighbors nb k idx1 nup 0 with
+    | .error e => .error e
+    | .ok flat =>
+      match partnersLoop k flat fv c0 nup 0 with
+      | .error e => .error e
+      | .ok partners =>
+        match pairsSep idx1 partners nup 0 with
+        | .error e => .error e
+        | .ok ps => .ok (idx1, ps)
+
+/-- index vector and pairs of iteration `t` for either variant -/
+def stepAt (inPlace global : Bool) (nb : List (List Nat)) (k N nup : Nat) (shuffle : Nat → List Nat)
+    (fv : Nat → Int) : Nat → Except Err (List Nat × List (Nat × Nat))
+  | 0 => stepPairs inPlace global nb k nup (shuffle 0) fv 0 (List.range N)
+  | t + 1 =>
+    match stepAt inPlace global nb k N nup shuffle fv t with
+    | .error e => .error e
+    | .ok (idx, _) => stepPairs inPlace global nb k nup (shuffle (t + 1)) fv ((t + 1) * drawsPerIter global nup) idx
 
 /-! ## Coordinates -/
 section coords
@@ -212,6 +271,7 @@ structure State (K : Type) where
 structure Input (K : Type) where
   N : Nat
   d : Nat
+  inPlace : Bool                   -- shape of the local strategy in the working tree (`Gen.spePartnersInPlace`)
   global : Bool
   nb : List (List Nat)
   nupReq : Nat
@@ -230,16 +290,13 @@ def floorPick (inp : Input K) (k : Nat) (c : Nat) : Int :=
 
 /-- one full iteration `t` -/
 def iterate (inp : Input K) (k nup maxIt : Nat) (alpha : K) (t : Nat) (s : State K) : Except Err (State K) :=
-  match idxStep inp.global inp.nb k nup (inp.shuffle t) (floorPick inp k) s.draws s.idx with
+  match stepPairs inp.inPlace inp.global inp.nb k nup (inp.shuffle t) (floorPick inp k) s.draws s.idx with
   | .error e => .error e
-  | .ok idx =>
-    match pairsOf nup idx nup 0 with
+  | .ok (idx, ps) =>
+    match coordStep inp.d s.Y inp.dist inp.sqrtO alpha inp.tol s.lam ps with
     | .error e => .error e
-    | .ok ps =>
-      match coordStep inp.d s.Y inp.dist inp.sqrtO alpha inp.tol s.lam ps with
-      | .error e => .error e
-      | .ok Y => .ok { idx := idx, Y := Y, lam := decay s.lam maxIt,
-                       draws := s.draws + drawsPerIter inp.global nup, trace := ps :: s.trace }
+    | .ok Y => .ok { idx := idx, Y := Y, lam := decay s.lam maxIt,
+                     draws := s.draws + drawsPerIter inp.global nup, trace := ps :: s.trace }
 
 def loop (inp : Input K) (k nup maxIt : Nat) (alpha : K) : (todo t : Nat) → State K → Except Err (State K)
   | 0, _, s => .ok s
